@@ -456,7 +456,8 @@ class BaseInput:
 
         # If file is already a DataFrame
         if isinstance(file, pd.DataFrame):
-            self._dataframe = file.astype(str)
+            # Missing and empty cells mean n/a, exactly as when the table is read from a file.
+            self._dataframe = file.astype(object).where(file.notna(), "n/a").astype(str).replace("", "n/a")
             self._has_column_names = self._dataframe_has_names(self._dataframe)
             return
 
